@@ -87,15 +87,28 @@ def http_cases(ctx, work):
         dsh, sizes_s, _ = hd.build_sharded(work, cfg, allp, salt=3)
         dleg, sizes_l, _ = hd.build_sharded(work, cfg, allp, salt=4, legacy=True)
         dpl, sizes_p, stored = hd.build_plain(work, "deep", True, [2, 1, 1], salt=5)
+        # a dataset re-exported in the current format with the files of an EARLIER export in the
+        # legacy two-file format still lying next to the shards (other contents): whatever fails,
+        # the reader must never fall back to the stale files
+        import shutil
+        dmix, sizes_m, _ = hd.build_sharded(work, cfg, allp, salt=6)
+        dold, _so, _ = hd.build_sharded(work, cfg, allp, salt=8, legacy=True)
+        for n in os.listdir(os.path.join(dold, sd.KEY)):
+            if n.endswith((".index", ".data")):
+                shutil.copy(os.path.join(dold, sd.KEY, n), os.path.join(dmix, sd.KEY, n))
         targets = [("plain", dpl, sizes_p, (1, 0, 0), 2), ("shard", dsh, sizes_s, (1, 1, 0), 7),
-                   ("legacy", dleg, sizes_l, (0, 1, 0), 9)]
-        behs = ["NotFound", "ServerError", "Forbidden", "Drop", "TruncBody", "ShortRange", "LongRange", "IgnoreRange",
-                "ErrorPageFit"]
+                   ("legacy", dleg, sizes_l, (0, 1, 0), 9), ("shard_stale_legacy", dmix, sizes_m, (1, 1, 0), 7)]
+        behs = ["NotFound", "ServerError", "Forbidden", "Status429", "Drop", "TruncBody", "ShortRange", "LongRange",
+                "IgnoreRange", "ErrorPageFit"]
         for kind, d, sizes, pos, nreq in targets:
             coords = sd.coords_of(pos, 4, sizes)
             loc = hd.local_read(d, "chunk", coords)
             for k in range(nreq):
                 for b in behs:
+                    if kind == "shard_stale_legacy" and b == "NotFound":
+                        # 404 IS the documented answer "this file does not exist": a server that says so
+                        # for the shard file describes a legacy-only dataset, and no client can tell
+                        continue
                     sched = ["Normal"] * k + [b]
                     url = server.url(os.path.relpath(d, work))
                     # http_fetch records only the class name: redo to get the hierarchy facts
